@@ -47,7 +47,7 @@ type c04Base struct {
 
 func c04Prepare(spec sess.MsgSpec, others ...sess.MsgSpec) c04Base {
 	b := c04Base{spec: spec, others: others}
-	l, res, _, q := c04Exchange(spec, nil, others...)
+	l, res, _, q := c04Exchange(spec, nil, 0, others...)
 	if res[0].Err != nil || res[1].Err != nil {
 		panic(fmt.Sprintf("clean C04 base exchange failed: %v / %v", res[0].Err, res[1].Err))
 	}
@@ -87,14 +87,16 @@ func c04Prepare(spec sess.MsgSpec, others ...sess.MsgSpec) c04Base {
 }
 
 // c04Exchange runs sender (party 0, slave, speaks first) -> receiver with the given edits.
-func c04Exchange(spec sess.MsgSpec, edits []link.Edit, others ...sess.MsgSpec) (*link.Link, [2]sess.Result, [2]*sess.Box, []byte) {
+func c04Exchange(spec sess.MsgSpec, edits []link.Edit, window int, others ...sess.MsgSpec) (*link.Link, [2]sess.Result, [2]*sess.Box, []byte) {
 	snd, rcv := sess.NewBox("snd"), sess.NewBox("rcv")
 	m := spec.Build("N0SND")
 	snd.AddOut(m)
 	for _, o := range others {
 		snd.AddOut(o.Build("N0SND"))
 	}
-	plan := link.Plan{Cut: link.NoCut(), FailAfter: -1}
+	// window > 0: a flow-controlled link (the sender is still writing a later message of the block when
+	// the receiver gives up and hangs up: its Write fails)
+	plan := link.Plan{Cut: link.NoCut(), FailAfter: -1, Window: window, PeerClosedWritesFail: window > 0}
 	plan.Edits[0] = edits
 	l, res := sess.RunPair(sess.Station{Call: "N0SND", Locator: "AA00aa", Handler: snd}, sess.Station{Call: "N0RCV", Locator: "BB11bb", Master: true, Handler: rcv}, plan)
 	return l, res, [2]*sess.Box{snd, rcv}, sess.MsgBytes(m)
@@ -151,7 +153,23 @@ func (b *c04Base) judge(edits []link.Edit) (string, string, bool) {
 	if b.refAccepts(b.alter(edits)) {
 		return "", "", true
 	}
-	l, res, boxes, queued := c04Exchange(b.spec, edits, b.others...)
+	windows := []int{0}
+	if len(b.others) > 0 {
+		windows = []int{0, 1, 300}
+	}
+	for _, w := range windows {
+		if c, d := b.judgeWindow(edits, w); c != "" {
+			if w > 0 {
+				d += fmt.Sprintf(" (flow-controlled link, window %d)", w)
+			}
+			return c, d, false
+		}
+	}
+	return "", "", false
+}
+
+func (b *c04Base) judgeWindow(edits []link.Edit, window int) (string, string) {
+	l, res, boxes, queued := c04Exchange(b.spec, edits, window, b.others...)
 	_ = l
 	mid := b.spec.MID
 	delivered := 0
@@ -159,28 +177,28 @@ func (b *c04Base) judge(edits []link.Edit) (string, string, bool) {
 		if c.MID == mid {
 			delivered++
 			if !bytes.Equal(c.Bytes, queued) {
-				return "delivered-altered-content", fmt.Sprintf("ProcessInbound got %d bytes differing from the %d queued (receiver error: %v)", len(c.Bytes), len(queued), res[1].Err), false
+				return "delivered-altered-content", fmt.Sprintf("ProcessInbound got %d bytes differing from the %d queued (receiver error: %v)", len(c.Bytes), len(queued), res[1].Err)
 			}
 		}
 	}
 	if delivered > 0 {
-		return "delivered-damaged-transfer", fmt.Sprintf("ProcessInbound called although the transfer was altered in transit (content happens to equal the original; receiver error: %v)", res[1].Err), false
+		return "delivered-damaged-transfer", fmt.Sprintf("ProcessInbound called although the transfer was altered in transit (content happens to equal the original; receiver error: %v)", res[1].Err)
 	}
 	for _, c := range boxes[0].CallsOf("SetSent") {
 		if c.MID == mid && !c.Flag {
-			return "sender-marked-sent", "SetSent(mid,false) although the transfer was damaged", false
+			return "sender-marked-sent", "SetSent(mid,false) although the transfer was damaged"
 		}
 	}
 	if res[1].Panic != "" {
-		return "receiver-panic|" + sess.PanicSiteOf(res[1].Stack), res[1].Panic, false
+		return "receiver-panic|" + sess.PanicSiteOf(res[1].Stack), res[1].Panic
 	}
 	if res[0].Panic != "" {
-		return "sender-panic|" + sess.PanicSiteOf(res[0].Stack), res[0].Panic, false
+		return "sender-panic|" + sess.PanicSiteOf(res[0].Stack), res[0].Panic
 	}
 	if res[1].Err == nil {
-		return "receiver-no-error", "receiving Exchange returned nil", false
+		return "receiver-no-error", "receiving Exchange returned nil"
 	}
-	return "", "", false
+	return "", ""
 }
 
 func C04(args []string) {
